@@ -1025,3 +1025,39 @@ package biscuit
 //@ modifies nothing
 //@ loop 0 invariant len(blocks) == len(b.blocks) && fresh(arr(blocks))
 //@ ensures len(res) == len(b.blocks)
+
+// ---------------------------------------------------------------------------
+// wrappers and text forms of builder-level values (C10)
+
+//@ func (v *authorizer) PrintWorld() (res string)
+//@ serves C10
+//@ requires authWF(v)
+//@ modifies nothing
+
+//@ iface (t Term) String() (res string)
+//@ serves C10
+//@ requires bTermWF(t)
+//@ modifies nothing
+
+//@ func (a Set) String() (res string)
+//@ serves C10
+//@ requires bTermsFlat(a)
+//@ modifies nothing
+//@ loop 0 invariant len(elts) == #i && cap(elts) == len(a) && fresh(arr(elts)) && off(elts) == 0
+
+//@ func (p Predicate) String() (res string)
+//@ serves C10
+//@ requires bPredWF(p)
+//@ modifies nothing
+//@ loop 0 invariant len(terms) == #i && cap(terms) == len(p.IDs) && fresh(arr(terms)) && off(terms) == 0
+
+//@ func (f Fact) String() (res string)
+//@ serves C10
+//@ requires bPredWF(f.Predicate)
+//@ modifies nothing
+
+//@ func (fs FactSet) String() (res string)
+//@ serves C10
+//@ requires bFactsWF(fs)
+//@ modifies nothing
+//@ loop 0 invariant len(out) == #i && cap(out) == len(fs) && fresh(arr(out)) && off(out) == 0
